@@ -458,6 +458,81 @@ def decodeNestedString : Val → Option Str
   | .expanded (.map m) _ => (match m.lookup ['v'] with | none => some [] | some x => decodeString x)
   | _ => none                         -- "expected a map"
 
+/-- `strings.Split(s, ",")` -/
+def splitComma : Str → List Str
+  | [] => [[]]
+  | c :: r =>
+    match splitComma r with
+    | h :: t => if c = ',' then [] :: h :: t else (c :: h) :: t
+    | [] => [[c]]
+
+/-- one element of a stringy container after `sanitizeToStr`, decoded into a `string` -/
+def decodeStrElem : Val → Option Str
+  | .str s => some s
+  | .expanded _ o => some o
+  | .null => some []
+  | _ => none
+
+def decodeStrElems : Vals → Option (List Str)
+  | .nil => some []
+  | .cons v vs =>
+    match decodeStrElem v, decodeStrElems vs with
+    | some a, some b => some (a :: b)
+    | _, _ => none
+
+def decodeStrKVs : KVs → Option (List (Str × Str))
+  | .nil => some []
+  | .cons k v r =>
+    match decodeStrElem v, decodeStrKVs r with
+    | some a, some b => some ((k, a) :: b)
+    | _, _ => none
+
+/-- decoding into a `[]string` field: `useExpandValue` (stringy structure → originals), then `StringToSliceHookFunc(",")` -/
+def decodeStringSlice : Val → Option (List Str)
+  | .null => some []
+  | .str s => some (if s.isEmpty then [] else splitComma s)
+  | .list xs => decodeStrElems xs
+  | .expanded .null _ => some []
+  | .expanded (.list xs) _ => decodeStrElems xs
+  | .expanded (.str s) _ => some (if s.isEmpty then [] else splitComma s)
+  | _ => none
+
+/-- decoding into a `map[string]string` field -/
+def decodeStringMap : Val → Option (List (Str × Str))
+  | .null => some []
+  | .map m => decodeStrKVs m
+  | .expanded .null _ => some []
+  | .expanded (.map m) _ => decodeStrKVs m
+  | _ => none
+
+/-- decoding into a struct type with `UnmarshalText` that stores the text: only a plain string reaches `UnmarshalText`;
+an expanded value arrives as its PARSED value (a struct is not a string target) -/
+def decodeText : Val → Option Str
+  | .str s => some s
+  | .null => some []
+  | .map _ => some []
+  | .expanded .null _ => some []
+  | .expanded (.map _) _ => some []
+  | _ => none
+
+/-- IEEE-754 double bits of an integer of magnitude < 2^53 -/
+def intToFloatBits (i : Int) : Nat :=
+  let a := i.natAbs
+  if a = 0 then 0 else
+  let e := Nat.log2 a
+  let mant := (a * 2 ^ (52 - e)) % 2 ^ 52
+  (if i < 0 then 2 ^ 63 else 0) + (e + 1023) * 2 ^ 52 + mant
+
+/-- decoding into a `float64` field: bits of the result -/
+def decodeFloat : Val → Option Nat
+  | .null => some 0
+  | .int i => some (intToFloatBits i)
+  | .float b => some b
+  | .expanded .null _ => some 0
+  | .expanded (.int i) _ => some (intToFloatBits i)
+  | .expanded (.float b) _ => some b
+  | _ => none
+
 /-- decoding into an `any` field (repaired code): the parsed values, never an `expandedValue`, never a panic -/
 def decodeAny (v : Val) : Val := sanitize false v
 
